@@ -402,3 +402,451 @@ func genBroker(p brokerProfile, seed int64, n int, tier string, w *bufio.Writer)
 		}
 	}
 }
+
+// ---- profile broker-iso (property C05): a hostile connection next to a witness pair ------------
+//
+// Every episode has a witness subscriber (connection 1, filter "w", sometimes "t1" too) and a
+// witness publisher (connection 2); further connections are attackers.  Attack bytes are built
+// from valid packets of all 14 types by truncation, corrupted length fields, 5-byte remaining
+// lengths, reserved types, oversized announced lengths and random bytes, sent as the first thing
+// on a connection (`rawfirst`) or on an accepted one (`raw`), whole or split across several
+// events, with witness traffic (also addressed to the attacker's subscriptions) in between.
+//
+// Topic names are single-level and neither '/' nor '$' is ever put into a payload, an identifier
+// or a corrupted byte: the recorded topic-store findings (empty levels, '$' below the first
+// level) cannot be reached by accident.  One episode in ten lets the witness publish on "a/$b"
+// with nobody subscribed to a matching filter (a publish the store rejects internally must not
+// cost the publisher its connection).
+
+const isoRing = 256 * 1024
+
+type isoGen struct {
+	r        *rand.Rand
+	w        *bufio.Writer
+	next     int
+	atk      []int // attacker connections opened in this episode (dead or alive: unknown to the generator)
+	thorough bool
+	dollar   bool
+	extra    int // CONNECT packets generated as attack material so far
+}
+
+func (g *isoGen) emit(format string, a ...interface{}) { fmt.Fprintf(g.w, "broker "+format+"\n", a...) }
+
+func (g *isoGen) safeByte() byte {
+	for {
+		b := byte(g.r.Intn(256))
+		// no level separator, no '$' (recorded topic-store findings), no wildcard: a corrupted will
+		// topic with a wildcard is a CONNECT the specification has no opinion about
+		if b != '/' && b != '$' && b != '#' && b != '+' {
+			return b
+		}
+	}
+}
+
+func (g *isoGen) bytesN(n int) []byte {
+	b := make([]byte, n)
+	for i := range b {
+		b[i] = g.safeByte()
+	}
+	return b
+}
+
+func (g *isoGen) pid() int { return 1 + g.r.Intn(30) }
+
+func (g *isoGen) topic() []byte { return []byte(pick(g.r, []string{"w", "w", "t1", "t2"})) }
+
+func (g *isoGen) filter() []byte {
+	fs := []string{"w", "t1", "t2", "+", "#"}
+	if g.dollar {
+		fs = fs[:4]
+	}
+	return []byte(pick(g.r, fs))
+}
+
+func (g *isoGen) smallPayload() []byte { return g.bytesN(g.r.Intn(6)) }
+
+// attacker CONNECT (always acceptable: unique identifier, keep-alive 60)
+func (g *isoGen) connectBytes(id int) []byte {
+	r := g.r
+	c := wConnect{protoName: []byte("MQTT"), version: 4, clean: r.Intn(3) != 0, clientID: []byte(fmt.Sprintf("atk%d", id)), keepAlive: 60}
+	if r.Intn(2) == 0 {
+		c.will = &wWill{topic: []byte(pick(r, []string{"w", "t1"})), payload: g.smallPayload(), qos: r.Intn(3), retain: false}
+	}
+	if r.Intn(6) == 0 {
+		u, p := []byte("user"), []byte("pw")
+		c.user, c.pass = &u, &p
+	}
+	return c.encode()
+}
+
+// validPacket returns one well-formed packet of type t (1..14) as a client or a server would send it.
+func (g *isoGen) validPacket(t int) []byte {
+	r := g.r
+	switch t {
+	case 1:
+		g.extra++ // a client identifier of its own: two live connections under one identifier are C10's subject
+		return g.connectBytes(900 + g.extra)
+	case 2:
+		return []byte{0x20, 0x02, byte(r.Intn(2)), byte(r.Intn(6))}
+	case 3:
+		q := r.Intn(3)
+		return wPub{qos: q, retain: false, topic: g.topic(), id: g.pid(), payload: g.smallPayload(), dup: q > 0 && r.Intn(5) == 0}.encode()
+	case 4, 5, 6, 7, 11:
+		return wAck(t, g.pid())
+	case 8:
+		n := 1 + r.Intn(3)
+		var ts [][]byte
+		var qs []int
+		for i := 0; i < n; i++ {
+			ts = append(ts, g.filter())
+			qs = append(qs, r.Intn(3))
+		}
+		return wSubscribe(g.pid(), ts, qs)
+	case 9:
+		return wPacket(0x90, append(wID(g.pid()), byte(pick(r, []int{0, 1, 2, 0x80}))))
+	case 10:
+		return wUnsubscribe(g.pid(), [][]byte{g.filter()})
+	case 12:
+		return []byte{0xc0, 0x00}
+	case 13:
+		return []byte{0xd0, 0x00}
+	default:
+		return []byte{0xe0, 0x00}
+	}
+}
+
+// a type for the next packet of an attacker: mostly what clients send
+func (g *isoGen) anyType() int {
+	if g.r.Intn(4) == 0 {
+		return 1 + g.r.Intn(14)
+	}
+	return pick(g.r, []int{3, 3, 3, 8, 8, 10, 12, 4, 5, 6, 7, 14})
+}
+
+// hdrLen: length of the fixed header of a packet built by wire.go
+func hdrLen(p []byte) int {
+	i := 1
+	for p[i]&0x80 != 0 {
+		i++
+	}
+	return i + 1
+}
+
+func varint5(tail byte) []byte { return []byte{0x80 | byte(tail&0x7f), 0xff, 0xff, 0xff, tail & 0x7f} }
+
+// attack builds hostile bytes out of a valid packet p; the result never contains '/' or '$'
+// beyond what p had.
+func (g *isoGen) attack(p []byte) []byte {
+	r := g.r
+	h := hdrLen(p)
+	body := p[h:]
+	switch r.Intn(15) {
+	case 14: // a PUBLISH whose topic name contains a wildcard
+		return wPub{qos: r.Intn(3), topic: []byte(pick(r, []string{"w#", "+", "#", "w+"})), id: g.pid(), payload: g.smallPayload()}.encode()
+	case 13: // a QoS 1/2 PUBLISH without packet identifier (identifier 0), addressed to the witness
+		return wPub{qos: 1 + r.Intn(2), topic: []byte("w"), id: 0, payload: g.smallPayload()}.encode()
+	case 0, 1: // truncated at a random offset (also inside the header)
+		return append([]byte{}, p[:r.Intn(len(p))]...)
+	case 2: // remaining length says less
+		if len(body) > 0 {
+			return append(append([]byte{p[0]}, wVarint(r.Intn(len(body)))...), body...)
+		}
+		return []byte{p[0], 0x01, g.safeByte()}
+	case 3: // remaining length says more (the next packets are swallowed, or the broker waits)
+		return append(append([]byte{p[0]}, wVarint(len(body)+1+r.Intn(40))...), body...)
+	case 4: // five remaining-length bytes
+		v := pick(r, [][]byte{{0x80, 0x80, 0x80, 0x80, 0x01}, {0xff, 0xff, 0xff, 0xff, 0x7f}, {0x80, 0x80, 0x80, 0x80, 0x80, 0x80}, {0xff, 0xff, 0xff, 0xff, 0x01}})
+		return append(append([]byte{p[0]}, v...), body...)
+	case 5: // non-minimal remaining length
+		v := wVarint(len(body))
+		v[len(v)-1] |= 0x80
+		v = append(v, 0x00)
+		if len(v) > 4 {
+			v = wVarint(len(body))
+		}
+		return append(append([]byte{p[0]}, v...), body...)
+	case 6: // reserved packet types
+		q := append([]byte{}, p...)
+		q[0] = pick(r, []byte{0x00, 0xf0, 0x0f, 0xff}) | (q[0] & 0x0f & byte(r.Intn(16)))
+		return q
+	case 7: // flag nibble changed
+		q := append([]byte{}, p...)
+		q[0] = q[0]&0xf0 | byte(r.Intn(16))
+		return q
+	case 8: // announces more than the ring can hold, never sends it
+		n := isoRing + 1 + r.Intn(1000)
+		if r.Intn(3) == 0 {
+			n = pick(r, []int{268435455, 268435455 - r.Intn(1000), 2097152, 1 << 24})
+		}
+		return append(append([]byte{p[0]}, wVarint(n)...), body...)
+	case 9: // one byte of the body changed (inner length prefixes, identifiers, QoS bytes, flags)
+		q := append([]byte{}, p...)
+		if len(body) > 0 {
+			q[h+r.Intn(len(body))] = g.safeByte()
+		}
+		return q
+	case 10: // inner length prefix too long
+		q := append([]byte{}, p...)
+		if len(body) >= 2 {
+			q[h], q[h+1] = byte(r.Intn(2)), g.safeByte()
+		}
+		return q
+	case 11: // random bytes
+		return g.bytesN(1 + r.Intn(24))
+	default: // a valid packet followed by the start of another one
+		q := g.validPacket(g.anyType())
+		return append(append([]byte{}, p...), q[:r.Intn(len(q))]...)
+	}
+}
+
+// patchKeepAlive: if bytes look like a CONNECT whose keep-alive field is 1..29 seconds, make it 60
+// (a connection the broker would drop by itself within an episode is not what is examined here)
+func patchKeepAlive(p []byte) {
+	if len(p) < 2 || p[0]>>4 != 1 {
+		return
+	}
+	h := 1
+	for h < len(p) && h <= 4 && p[h]&0x80 != 0 {
+		h++
+	}
+	h++
+	if h+2 > len(p) {
+		return
+	}
+	nl := int(p[h])<<8 | int(p[h+1])
+	ka := h + 2 + nl + 2
+	if ka+2 > len(p) {
+		return
+	}
+	if v := int(p[ka])<<8 | int(p[ka+1]); v > 0 && v < 30 {
+		p[ka], p[ka+1] = 0, 60
+	}
+}
+
+func (g *isoGen) newAttacker() int {
+	g.next++
+	g.atk = append(g.atk, g.next)
+	return g.next
+}
+
+// split emits data as 2..4 `raw` events on connection c with witness traffic in between
+func (g *isoGen) split(c int, data []byte) int {
+	n := 0
+	parts := 2 + g.r.Intn(3)
+	for len(data) > 0 {
+		k := len(data)
+		if parts > 1 && len(data) > 1 {
+			k = 1 + g.r.Intn(len(data)-1)
+		}
+		g.emit("raw %d %s", c, hexOf(data[:k]))
+		n++
+		data = data[k:]
+		parts--
+		if len(data) > 0 && g.r.Intn(2) == 0 {
+			n += g.witness()
+		}
+	}
+	return n
+}
+
+// witness traffic: the publisher publishes to the subscriber's topic or to an attacker's one
+func (g *isoGen) witness() int {
+	r := g.r
+	switch r.Intn(8) {
+	case 0:
+		g.emit("pkt 1 pingreq")
+	case 1:
+		q := 1 + r.Intn(2)
+		id := g.pid()
+		g.emit("pkt 2 publish 0 %d 0 %s %d %s", q, hexStr("w"), id, hexOf(g.smallPayload()))
+		if q == 2 {
+			g.emit("pkt 2 pubrel %d", id)
+			return 2
+		}
+	case 2:
+		if g.dollar {
+			q := r.Intn(2)
+			g.emit("pkt 2 publish 0 %d 0 %s %d %s", q, hexStr("a/$b"), q*g.pid(), hexOf(g.smallPayload()))
+			return 1
+		}
+		fallthrough
+	default:
+		t := pick(r, []string{"w", "w", "t1", "t2"})
+		pl := g.smallPayload()
+		if r.Intn(40) == 0 {
+			pl = g.bytesN(9000 + r.Intn(30000))
+		}
+		q := r.Intn(2)
+		g.emit("pkt 2 publish 0 %d 0 %s %d %s", q, hexStr(t), q*g.pid(), hexOf(pl))
+	}
+	return 1
+}
+
+func genBrokerIso(seed int64, n int, tier string, w *bufio.Writer) {
+	r := rand.New(rand.NewSource(seed))
+	g := &isoGen{r: r, w: w, thorough: tier == "thorough"}
+	for done := 0; done < n; {
+		g.emit("reset")
+		g.next, g.atk = 2, nil
+		g.dollar = r.Intn(10) == 0
+		// the witnesses
+		g.emit("first 1 connect %s 4 0 1 ~ 0 0 %s ~ ~ 60 1", hexStr("MQTT"), hexStr("wsub"))
+		subs := fmt.Sprintf("%s:%d", hexStr("w"), 1+r.Intn(2))
+		if r.Intn(3) == 0 {
+			subs += fmt.Sprintf(",%s:%d", hexStr("t1"), r.Intn(3))
+		}
+		g.emit("pkt 1 subscribe 1 %s", subs)
+		g.emit("first 2 connect %s 4 0 1 ~ 0 0 %s ~ ~ 60 1", hexStr("MQTT"), hexStr("wpub"))
+		done += 3
+		if g.dollar {
+			// a subscriber whose filter makes the topic store look at the '$' level of "a/$b" (recorded finding B4:
+			// the store rejects that publish internally; the publisher must keep its connection all the same)
+			id := g.newAttacker()
+			g.emit("rawfirst %d %s 0", id, hexOf(append(g.connectBytes(id), wSubscribe(1, [][]byte{[]byte("a/+")}, []int{1})...)))
+			done++
+		}
+		eplen := 12 + r.Intn(40)
+		for i := 0; i < eplen && done < n; i++ {
+			var a int
+			if len(g.atk) > 0 {
+				a = pick(r, g.atk)
+				if r.Intn(3) != 0 {
+					a = g.atk[len(g.atk)-1] // mostly the most recent one (the others are often gone)
+				}
+			}
+			switch k := r.Intn(100); {
+			case k < 12 || a == 0:
+				// a new attacker: a proper CONNECT, often with packets behind it in the same write
+				id := g.newAttacker()
+				data := g.connectBytes(id)
+				for j := r.Intn(3); j > 0; j-- {
+					data = append(data, g.validPacket(pick(r, []int{8, 8, 3, 12}))...)
+				}
+				if r.Intn(4) == 0 {
+					data = append(data, g.attack(g.validPacket(g.anyType()))...)
+				}
+				g.emit("rawfirst %d %s %d", id, hexOf(data), b2i(r.Intn(8) == 0))
+				done++
+			case k < 24:
+				// hostile bytes as the first thing on a connection
+				id := g.newAttacker()
+				var data []byte
+				switch r.Intn(4) {
+				case 0:
+					data = g.attack(g.validPacket(g.anyType()))
+				case 1:
+					data = g.validPacket(pick(r, []int{2, 3, 4, 8, 12, 13, 14})) // a well-formed packet, but not CONNECT
+				default:
+					data = g.attack(g.connectBytes(id))
+				}
+				patchKeepAlive(data)
+				closes := r.Intn(10) != 0 // keeping the connection open costs the broker's connect deadline (1 s)
+				if sc, _, tl := scanFrames(data, 0); sc == 0 && tl == tailQuiet && len(data) > 6 && !closes && r.Intn(3) != 0 {
+					closes = true
+				}
+				g.emit("rawfirst %d %s %d", id, hexOf(data), b2i(closes))
+				done++
+			case k < 50:
+				// valid traffic of the attacker (subscriptions to the witness topics included)
+				var data []byte
+				for j := 1 + r.Intn(3); j > 0; j-- {
+					data = append(data, g.validPacket(g.anyType())...)
+				}
+				if r.Intn(5) == 0 {
+					done += g.split(a, data)
+				} else {
+					g.emit("raw %d %s", a, hexOf(data))
+					done++
+				}
+			case k < 72:
+				// the attack on an accepted connection
+				data := g.attack(g.validPacket(g.anyType()))
+				if r.Intn(3) == 0 {
+					data = append(g.validPacket(g.anyType()), data...)
+				}
+				if sc, _, _ := scanFrames(data, isoRing); sc > 0 {
+					// keep clear of the recorded ring defect F3 (a packet of more than ring − 8 KiB sent in pieces)
+					if len(data) > isoRing-8192 {
+						data = data[:100]
+					}
+				}
+				if r.Intn(4) == 0 && len(data) > 1 {
+					done += g.split(a, data)
+				} else {
+					g.emit("raw %d %s", a, hexOf(data))
+					done++
+				}
+			case k < 78:
+				g.emit("close %d", a)
+				done++
+			case k < 86:
+				// the witness publishes (to the attacker's topics too) while the attacker is torn down
+				var pubs []byte
+				for j := 1 + r.Intn(6); j > 0; j-- {
+					q := r.Intn(2)
+					pl := g.smallPayload()
+					if r.Intn(6) == 0 {
+						pl = g.bytesN(2000 + r.Intn(12000))
+					}
+					pubs = append(pubs, wPub{qos: q, topic: g.topic(), id: g.pid(), payload: pl}.encode()...)
+				}
+				how := "close"
+				if r.Intn(2) == 0 {
+					how = hexOf(pick(r, [][]byte{{0xf0, 0x00}, {0x00, 0x00}, {0x30, 0x80, 0x80, 0x80, 0x80, 0x01}, {0x30, 0xff, 0xff, 0x7f}, {0x30, 0x02, 0x00, 0x09}, {0x82, 0x00}, {0xe0, 0x00}}))
+				}
+				g.emit("race %d %s 2 %s", a, how, hexOf(pubs))
+				done++
+			default:
+				done += g.witness()
+			}
+		}
+		// the witnesses are still there and served
+		g.emit("pkt 2 publish 0 1 0 %s %d %s", hexStr("w"), g.pid(), hexOf(g.smallPayload()))
+		g.emit("pkt 1 pingreq")
+		done += 2
+	}
+}
+
+// genBrokerIsoSweep: every valid packet type, cut at every offset, as first packet and on an
+// accepted connection (whole prefix in one event, and byte 0..k-1 then the rest after witness
+// traffic), while the witness publishes to the attacker's subscription.
+func genBrokerIsoSweep(seed int64, n int, tier string, w *bufio.Writer) {
+	r := rand.New(rand.NewSource(seed))
+	g := &isoGen{r: r, w: w, thorough: tier == "thorough"}
+	done := 0
+	for rounds := 0; done < n; rounds++ {
+		for t := 1; t <= 14 && done < n; t++ {
+			p := g.validPacket(t)
+			g.emit("reset")
+			g.next, g.atk = 2, nil
+			g.emit("first 1 connect %s 4 0 1 ~ 0 0 %s ~ ~ 60 1", hexStr("MQTT"), hexStr("wsub"))
+			g.emit("pkt 1 subscribe 1 %s:1", hexStr("w"))
+			g.emit("first 2 connect %s 4 0 1 ~ 0 0 %s ~ ~ 60 1", hexStr("MQTT"), hexStr("wpub"))
+			done += 3
+			for cut := 0; cut <= len(p) && done < n; cut++ {
+				// first packet cut at `cut` (the client closes: no connect deadline to wait for)
+				id := g.newAttacker()
+				g.emit("rawfirst %d %s 1", id, hexOf(p[:cut]))
+				// accepted connection subscribed to t1 with a will on w, then the cut packet, then the close
+				id = g.newAttacker()
+				c := wConnect{protoName: []byte("MQTT"), version: 4, clean: true, clientID: []byte(fmt.Sprintf("atk%d", id)), keepAlive: 60,
+					will: &wWill{topic: []byte("w"), payload: []byte{byte(cut)}, qos: 1}}
+				g.emit("rawfirst %d %s 0", id, hexOf(append(c.encode(), wSubscribe(1, [][]byte{[]byte("t1")}, []int{1})...)))
+				g.emit("raw %d %s", id, hexOf(p[:cut]))
+				g.emit("pkt 2 publish 0 1 0 %s %d %s", hexStr("t1"), g.pid(), hexOf(g.smallPayload()))
+				if cut < len(p) && r.Intn(2) == 0 {
+					g.emit("raw %d %s", id, hexOf(p[cut:]))
+					done++
+				}
+				g.emit("close %d", id)
+				g.emit("pkt 2 publish 0 0 0 %s 0 %s", hexStr("w"), hexOf(g.smallPayload()))
+				done += 6
+			}
+		}
+	}
+}
+
+func init() {
+	gens["broker-iso"] = genBrokerIso
+	gens["broker-iso-sweep"] = genBrokerIsoSweep
+}
